@@ -50,9 +50,13 @@ def argv_for(site, tmp, concurrent, case=None):
     # the same on-disk table can be named by path or by SQLAlchemy URI; the tries limit must not matter when no fetch fails
     db = ['--database-uri', 'sqlite:///' + os.path.join(tmp, 'crawl.db')] if case.get('db_uri') else \
         ['--database', os.path.join(tmp, 'crawl.db')]
+    if case.get('convert_links'):
+        extra += ['--convert-links']          # link conversion runs after the downloads and keeps its own queue in the table
+    if case.get('sitemaps'):
+        extra += ['--sitemaps']               # adds /robots.txt and /sitemap.xml of every start URL's site
     return extra + [site.start, '-r', '--level', 'inf', '--no-robots'] + db + [
-            '-P', tmp, '--concurrent', str(concurrent), '--delete-after', '--page-requisites', '--quiet',
-            '--waitretry', '0', '--tries', str(case.get('tries', 3))]
+            '-P', tmp, '--concurrent', str(concurrent)] + ([] if case.get('convert_links') else ['--delete-after']) + [
+            '--page-requisites', '--quiet', '--waitretry', '0', '--tries', str(case.get('tries', 3))]
 
 
 FI_SO = os.path.join(common.VERIF, 'harness', 'fi', 'fi.so')
@@ -141,7 +145,7 @@ def run_case(case, part):
                     fi_total = sum(1 for _ in f)
             except OSError:
                 fi_total = 0
-            return {'counts': res1['counts'], 'requests': [canon_request(e) for e in log1], 'exit': res1['exit_status'],
+            return {'counts': res1['counts'], 'requests': [canon_request(e) for e in log1], 'exit': res1['exit_status'], 'log': res1.get('log', '')[-1500:],
                     'rows': rows, 'fi_total_ops': fi_total}
         part.evaluations += 1
         kind = kill['kind'] if kill['kind'] != 'request' else 'request:' + kill['phase']
@@ -279,6 +283,8 @@ def main():
         base = dict(workloads[0])
         workloads.append(dict(base, tries=1, variant='tries1'))
         workloads.append(dict(base, db_uri=True, variant='db-uri'))
+        workloads.append(dict(base, convert_links=True, variant='convert-links'))
+        workloads.append(dict(base, sitemaps=True, variant='sitemaps'))
         if check.thorough:
             workloads.append(dict(workloads[1], tries=1, db_uri=True, variant='tries1+db-uri'))
         # a crawl with more start URLs than fit in one batch of the input task (1000): kills while the start URLs are
@@ -315,10 +321,20 @@ def main():
                     cases.append(dict(w, kill=p, reference_requests=ref))
                 continue
             if w.get('variant') and not check.thorough:
-                # quick tier: the option variants get the kills during the download phase only
-                for k in range(R):
-                    for ph in ('request-line', 'after-response'):
-                        points.append({'kind': 'request', 'at': k, 'phase': ph})
+                # quick tier: the option variants get the kills of the phase the option touches
+                if w['variant'] == 'convert-links':
+                    # the link conversion phase: the last statements and commits of the run
+                    points += [{'kind': 'before_stmt', 'at': k} for k in range(max(1, S - 24), S + 1)]
+                    points += [{'kind': 'after_commit', 'at': k} for k in range(max(1, C - 12), C + 1)]
+                elif w['variant'] == 'sitemaps':
+                    # the extra URLs are queued while the first page is processed: the first statements and commits
+                    ddl = c['counts'].get('ddl', 0)
+                    points += [{'kind': 'before_stmt', 'at': k} for k in range(ddl + 1, min(S, ddl + 26))]
+                    points += [{'kind': 'after_commit', 'at': k} for k in range(1, min(C, 14))]
+                else:
+                    for k in range(R):
+                        for ph in ('request-line', 'after-response'):
+                            points.append({'kind': 'request', 'at': k, 'phase': ph})
                 check.count('kill_points_option_variants', len(points))
                 for p in points:
                     cases.append(dict(w, kill=p, reference_requests=ref))
